@@ -47,12 +47,9 @@ class NLRI(object):
     @staticmethod
     def construct_prefix_v6(prefix):
         mask = int(prefix.split('/')[1])
-        prefix_hex = binascii.unhexlify(hex(netaddr.IPNetwork(prefix).ip)[2:])
-        offset = mask // 8
-        offset_re = mask % 8
-        if offset == 0:
-            return prefix_hex[0: 1]
-        return prefix_hex[0: offset + offset_re]
+        prefix_hex = netaddr.IPNetwork(prefix).ip.packed
+        # the prefix occupies just enough octets to hold its bits
+        return prefix_hex[0: (mask + 7) // 8]
 
     @classmethod
     def parse_mpls_label_stack(cls, data):
